@@ -7,6 +7,7 @@ CONSTANTS
   Uris <- AllUris
   Vals <- AllVals
   Updatable <- AllUpdatable
+  Suspendable <- GenSuspendable
   Depth = 3
 INIT GenInit
 NEXT GenNext
